@@ -120,8 +120,34 @@ def fold(s):
     return re.sub(r"[ \t\n\r\f\v]+", " ", nodash.strip(WSCHARS))
 
 
+def filler(n):
+    """exactly n characters of well-formed label text: one statement, then a comment to make up the rest
+    (few tokens, so that long texts stay cheap)"""
+    if n < 5:
+        return " " * n
+    if n < 12:
+        return "/*" + "x" * (n - 5) + "*/\n"
+    return "a = 1\n" + "/*" + "x" * (n - 11) + "*/\n"
+
+
+OFFSET_KINDS = {"begins-name": ("{c}k = 1\n", 0), "begins-value": ("k = {c}v\n", 4), "in-string": ('k = "a{c}b"\n', 4),
+                "in-units": ("k = 1 <  {c}m>\n", 6), "in-units-after-newline": ("k = 1 <\n {c}m>\n", 6)}
+
+
+def offset_template(kind, n):
+    """the character sits at absolute index n + (its index in the short template)"""
+    t, start = OFFSET_KINDS[kind]
+    f = filler(n)
+    assert len(f) == n, (n, len(f))
+    return ("offset:%s@%d" % (kind, n), f + t, n + start, "any")
+
+
 def check(d, posname, o):
-    tmpl = {p[0]: p for p in POSITIONS}[posname]
+    if posname.startswith("offset:"):
+        kind, n = posname[7:].split("@")
+        tmpl = offset_template(kind, int(n))
+    else:
+        tmpl = {p[0]: p for p in POSITIONS}[posname]
     _, t, start, demand = tmpl
     c = chr(o)
     text = t.replace("{c}", c)
@@ -154,6 +180,11 @@ def check(d, posname, o):
             probs.append("pos %r is not in 0..%d (index of the character)" % (e.pos, idx))
         elif e.pos < start:
             probs.append("pos %r is before the construct that holds the character (starts at %d)" % (e.pos, start))
+        lexeme = getattr(e, "lexeme", None)
+        if isinstance(lexeme, str) and lexeme and isinstance(e.pos, int) and 0 <= e.pos <= idx \
+                and text[e.pos:e.pos + len(lexeme)] != lexeme:
+            probs.append("the text at pos %r reads %r, not the reported lexeme %r"
+                         % (e.pos, text[e.pos:e.pos + len(lexeme)], lexeme))
         want_line = text.count("\n", 0, max(e.pos, 0)) + 1
         want_col = e.pos - text.rfind("\n", 0, max(e.pos, 0))
         if e.lineno != want_line:
@@ -220,8 +251,38 @@ def shard_positions(cps):
     return acc
 
 
+OFFSET_CPS = [0x01, 0xe9, 0x4e2d]      # forbidden in PVL+ODL / ODL only / every strict dialect
+
+
+def shard_offsets(spec):
+    """the same few characters at EVERY absolute index of a long text (scanners that work in blocks,
+    buffers or windows have boundaries somewhere)"""
+    acc = Acc()
+    for n in spec:
+        for kind in OFFSET_KINDS:
+            for o in OFFSET_CPS:
+                for d in ("PVL", "ODL", "PDS3", "OMNI"):
+                    vs, k = check(d, "offset:%s@%d" % (kind, n), o)
+                    acc.n += 1
+                    acc.outcomes[k if not vs else "violation"] += 1
+                    if vs:
+                        for v in vs:
+                            acc.violation(v["case"], v["diagnosis"], v["detail"],
+                                          sig="%s|offset:%s|%d" % (v["diagnosis"], kind, n % 64))
+                    elif k not in ("skip", "any", "not-total(C06)"):
+                        acc.nontrivial += 1
+    acc.sample({"offsets": list(spec)[:5]}, cap=1)
+    return acc
+
+
 def run(ctx):
     acc = Acc()
+    if ctx.quick:
+        # every index up to 260, then +/-3 around every power of two up to 8192 (block, buffer and window sizes)
+        offs = sorted(set(range(0, 261)) | {2 ** k + d for k in range(8, 14) for d in range(-3, 4)})
+    else:
+        offs = list(range(0, 8300))
+    ctx.pmap(shard_offsets, [offs[i::96] for i in range(96)], into=acc)
     step = 0x110000 // 64 + 1
     ctx.pmap(shard_table, [(lo, min(lo + step, 0x110000)) for lo in range(0, 0x110000, step)], into=acc)
     cps = codepoints(ctx.quick)
@@ -231,11 +292,13 @@ def run(ctx):
         "evaluations": acc.n, "distinct_nontrivial": acc.nontrivial,
         "rule": "(a) all 1,114,112 code points x 5 grammars against the specification tables; (b) %d code points "
                 "(every range edge +/-1, %s exhaustively, surrogates, plane boundaries, specials) x %d "
-                "positions x {PVL, ODL, PDS3, default} (ISIS run for information only); non-trivial = a table entry "
+                "positions x {PVL, ODL, PDS3, default} (ISIS run for information only); (c) 3 characters x 5 "
+                "token positions at %s of a long well-formed text; non-trivial = a table entry "
                 "compared, or a position case where the property demands a specific outcome (LexerError with "
                 "consistent attributes / string unchanged / comment ignored / text after END ignored)"
                 % (len(cps), "U+0000..U+017F" if ctx.quick else "U+0000..U+FFFF, every 257th code point above",
-                   len(POSITIONS)),
+                   len(POSITIONS), "every absolute index 0..260 and +/-3 around every power of two up to 8192"
+                   if ctx.quick else "every absolute index 0..8299"),
         "outcome_histogram": dict(acc.outcomes),
         "samples": acc.samples[:6], "exhaustive": True,
     }
